@@ -74,6 +74,11 @@ type Expect struct {
 	Classes []string // allowed result classes: ok stale future error
 	Groups  [][]FE   // feed entries, in groups whose internal order is free
 	Note    string
+	// Ambiguous: a notification with several updates had at least one update
+	// whose future-threshold verdict depends on which reading of an advancing
+	// clock it was checked against; the single result class cannot tell which
+	// updates were accepted, so the model cannot follow this target further.
+	Ambiguous bool
 }
 
 func (e *Expect) allow(c ...string) { e.Classes = c }
@@ -148,6 +153,7 @@ func (t *Target) Apply(n *pb.Notification, o Opts, clock []int64) Expect {
 				e.Groups = append(e.Groups, g)
 			}
 		}
+		e.Ambiguous = mayFail && len(clock) > 1
 		switch {
 		case !allOK:
 			e.allow("error")
